@@ -352,6 +352,7 @@ def run(tier):
     sites = T.scan()
     covered, uncovered, excluded, mismatch = T.coverage(sites, wrappers)
     enum_required, enum_uncovered = T.enum_coverage(wrappers)
+    flag_required, flag_uncovered, flag_excluded = T.flag_coverage(wrappers)
     mc = model_check(chk)
     combos = {"%s:%s" % (w["kind"], w["retry"]) for w in wrappers}
     plans = gen_plans(chk, tier, combos)
@@ -493,6 +494,7 @@ def run(tier):
         "wrappers": len(wrappers), "plans": len(plans), "protocol_models": mc,
         "driver_entries_for_argument_variants": sum(1 for w in wrappers if w.get("variant")),
         "enum_variants_required": len(enum_required), "enum_variants_uncovered": enum_uncovered,
+        "flag_constants_required": flag_required, "flag_constants_uncovered": flag_uncovered, "flag_parameters_excluded": flag_excluded,
         # algorithm level: which model-checked idiom of SyscallIdioms.tla explains all records of a wrapper
         "wrapper_idioms": {w: sorted(v) for w, v in sorted(idioms.items())},
         "model_conformance": all(idioms.get(w["w"]) for w in wrappers),
